@@ -10,7 +10,8 @@ import core
 from core import Plugin, CheckError
 
 URIS = ["http://a.test", "https://a.test", "http://a.test:8080", "http://b.test", "http://A.TEST",
-        "HTTP://a.test", "http://a.test:80", ""]
+        "HTTP://a.test", "http://a.test:80", "",
+        "http://a.test|b.test", "http://b.test|a.test", "http://a.test|a.test"]   # "<uri>|<Host header>"
 TIMEOUT_MS = 400
 TICK_MS = 1000
 
@@ -146,6 +147,9 @@ def gen_history(rng, nops, nkeys, timed, weights=None):
     keys = rng.sample(range(7), nkeys) if nkeys <= 7 else list(range(7))
     if rng.random() < 0.08:
         keys = keys + [7]
+    if rng.random() < 0.15:
+        # requests that carry an explicit Host header naming another (or the same) origin of the table
+        keys = keys + rng.sample([8, 9, 10, 0, 3], 2)
     ops = []
     nreq = 0
     nconn = 0
@@ -459,7 +463,7 @@ class Pool(Plugin):
                                f"(real sleeps: {TICK_MS} ms ticks vs a {TIMEOUT_MS} ms idle timeout; {kinds['timed']} timed cases) and perturbed interleaving "
                                "templates (pre-empted owner, pop window, push-back, failing owner, refill at the idle limit, owner dropped) and idle-limit "
                                "histories (idle list driven to max_idle, entries closed in place, further releases, newcomers); 1-3 origins "
-                               "from a table of 7 URIs differing in scheme/port/host/case + one without scheme, h1/h2/ALPN mixed, dial "
+                               "from a table of 7 URIs differing in scheme/port/host/case + one without scheme + 3 whose request carries an explicit Host header naming another or the same origin, h1/h2/ALPN mixed, dial "
                                f"outcomes ok/alpn/connect-error/handshake-error; {kinds['drained']} cases end with the closing procedure + probe",
                        "exhaustive": False}
 
